@@ -5,7 +5,7 @@ from . import slicer, mirparse
 
 VERIF = os.path.dirname(os.path.dirname(os.path.abspath(__file__)))
 BUILD = os.environ.get("VERIF_BUILD", os.path.join(VERIF, "build"))
-SHIM_CRATES = ["vstd", "futures", "atomic_float", "bincode", "bytes", "tokio", "aws_sdk_s3", "aws_config"]
+SHIM_CRATES = ["vstd", "futures", "atomic_float", "bincode", "bytes", "tokio", "aws_sdk_s3", "aws_config", "tiny_http"]
 
 CARGO_TOML = """[package]
 name = "nsym"
@@ -25,6 +25,7 @@ bytes = { path = "%(shims)s/bytes" }
 tokio = { path = "%(shims)s/tokio" }
 aws-sdk-s3 = { path = "%(shims)s/aws_sdk_s3" }
 aws-config = { path = "%(shims)s/aws_config" }
+tiny_http = { path = "%(shims)s/tiny_http" }
 lazy_static = "=1.5.0"
 vsym = { path = "%(shims)s/vsym" }
 [[bin]]
